@@ -48,11 +48,17 @@ ASSUMPTIONS = [
     "TLS contexts are cached per worker process; no session is ever resumed (no session= argument), so a cached context carries nothing into the next execution",
     "not exhaustive over all fragmentations x interleavings (exponential): complete only up to the stated deviation bound, plus uniform fragmentations",
     "plaintext-leak check uses the 20-byte side marker (present in every write of >= 43 bytes) and the full plaintext of 16..42-byte writes; a 1-byte write has nothing searchable",
-    "blocking variant: sizes {1,17,16385} only (the kernel buffer of the AF_UNIX pair is never filled), sequential program (send-first or alternate), TLS client and server",
+    "blocking variant: sizes {1,17,16385}, <= 2 writes per side (the kernel buffer of the AF_UNIX pair is never filled), sequential program (send-first or alternate), TLS client and server",
+    "second async configuration: the leaf is the real AsyncioTransportStreamSocketAdapter on a FakeSocket (tx pipe unbounded or 1024 bytes, drained by the relay at every step)",
 ]
 BOUNDS = {
-    "quick": "deviation bound 2 on 8 script pairs x 16 configurations, bound 1 on 36 script pairs, bound 0 on all 155x155/8 sampled-by-structure pairs (see jobs), uniform fragmentations on 6 script pairs",
-    "thorough": "deviation bound 3 on 8 script pairs x 16 configurations, bound 2 on 36 pairs, bound 1 on 230 pairs, bound 0 on every one of the 155x155 script pairs, uniform fragmentations on 12 script pairs",
+    "quick": "deviation bound 2 on 8 script pairs x 16 configurations (128 explorations); bound 1 on the 6x6 mid script pairs x 4 version/role "
+             "configurations, on 64 configurations over the real asyncio socket adapter (FakeSocket, tx pipe unbounded / 1024 bytes) and on 576 "
+             "blocking configurations; default delivery on one in 8 of the 155x155 script pairs (shifted diagonals); uniform fragmentations "
+             "{1,2,3,5,7,64,1000} on 6 script pairs",
+    "thorough": "deviation bound 3 on the 128 deep explorations; bound 2 on the mid pairs, the socket-adapter configurations and the blocking "
+                "configurations; bound 1 on a 930-pair band of the script matrix; default delivery on EVERY one of the 155x155 script pairs in all four "
+                "version/role configurations; uniform fragmentations on 12 script pairs",
 }
 
 
@@ -121,13 +127,22 @@ def run_async(ctx: Ctx, cfg: dict) -> dict:
     out: dict = {"phase": "wrap"}
     bufsize = cfg.get("bufsize", 65536)
     holder: dict = {}
+    sock = None
+    if cfg["kind"] == "asock":
+        # second configuration: the leaf is the real asyncio socket adapter on a FakeSocket (tx pipe capacity tx_cap, so
+        # that the adapter's own write flow control is active while the TLS layer flushes)
+        sock = world.stream_socket(tx_cap=cfg.get("tx_cap"))
+        relay.link = tlsrig.FakeSocketLink(relay, sock)
 
     async def main(loop: Any) -> None:
         import asyncio
 
-        leaf = tlsrig.MemTransport(AsyncIOBackend(), send_checkpoints=cfg.get("send_checkpoints", 0))
-        holder["leaf"] = leaf
-        relay.link = tlsrig.AsyncLink(relay, leaf)
+        if sock is not None:
+            leaf = await AsyncIOBackend().wrap_stream_socket(sock)
+        else:
+            leaf = tlsrig.MemTransport(AsyncIOBackend(), send_checkpoints=cfg.get("send_checkpoints", 0))
+            holder["leaf"] = leaf
+            relay.link = tlsrig.AsyncLink(relay, leaf)
         tls = await AsyncTLSStreamTransport.wrap(leaf, tlsrig.lib_context(version, role), server_side=(role == "server"),
                                                  server_hostname=tlsrig.HOSTNAME if role == "client" else None)
         out["phase"] = "transfer"
@@ -158,7 +173,7 @@ def run_async(ctx: Ctx, cfg: dict) -> dict:
                 else:
                     await tls.send_all_from_iterable(iter(split_for_iterable(w)))
             out["writer_done"] = True
-            out["reader_parked_at_writer_done"] = leaf.parked and not st["reader_done"]
+            out["reader_parked_at_writer_done"] = (sock is not None or leaf.parked) and not st["reader_done"]
 
         coros = [reader(), writer()] if cfg.get("order", "rw") == "rw" else [writer(), reader()]
         tasks = [loop.create_task(c) for c in coros]
@@ -182,7 +197,7 @@ def run_async(ctx: Ctx, cfg: dict) -> dict:
     out["expected_lib"] = b"".join(pw)
     out["expected_peer"] = b"".join(lw)
     out["leak"] = find_leak(needles(lw, pw), leaf.sent if leaf else [], relay)
-    out["leaf_calls"] = tuple(leaf.calls) if leaf else ()
+    out["leaf_calls"] = tuple(leaf.calls) if leaf else (tuple(map(tuple, sock.calls)) if sock is not None else ())
     out["busy_recv"] = leaf.busy_recv if leaf else 0
     out["peer_events"] = tuple(e for e in relay.peer.events if e[0] != "data")
     out["deliveries"] = len(relay.deliveries)
@@ -289,7 +304,7 @@ def run_blocking(ctx: Ctx, cfg: dict) -> dict:
 
 
 def run_cfg(ctx: Ctx, cfg: dict) -> dict:
-    return run_async(ctx, cfg) if cfg["kind"] == "async" else run_blocking(ctx, cfg)
+    return run_blocking(ctx, cfg) if cfg["kind"] == "blocking" else run_async(ctx, cfg)
 
 
 # ---------------------------------------------------------------------------------------------------------
@@ -413,6 +428,21 @@ def jobs(tier: str) -> list[dict]:
     for pair in UNIFORM_PAIRS[tier]:
         for n in UNIFORM:
             out.append({"kind": "uniform", "tier": tier, "pair": [list(pair[0]), list(pair[1])], "n": n})
+    # (F) second configuration: AsyncTLSStreamTransport over the REAL asyncio socket adapter on a FakeSocket
+    i = 0
+    group = []
+    for pair in DEEP_PAIRS:
+        for v, r in vr:
+            for cap in (None, 1024):
+                i += 1
+                recv, send = VARIANTS[i % 4]
+                group.append(_base("asock", v, r, recv, send, pair[0], pair[1], tx_cap=cap, bufsize=(65536, 1000)[(i // 4) % 2],
+                                   gate=("duplex", "lib-first")[(i // 8) % 2], order=("rw", "wr")[(i // 2) % 2]))
+                if len(group) == (4 if tier == "quick" else 1):
+                    out.append({"kind": "explore", "tier": tier, "bound": mid, "cfgs": group})
+                    group = []
+    if group:
+        out.append({"kind": "explore", "tier": tier, "bound": mid, "cfgs": group})
     # (E) blocking SSLStreamTransport
     bscripts = [s for s in all_scripts() if all(x in BLOCKING_SIZES for x in s) and len(s) <= 2]
     bpairs = [(a, b) for a in bscripts for b in bscripts]
